@@ -278,15 +278,34 @@ func TestWorker(t *testing.T) {
 		}
 		if len(own) > 0 {
 			v := own[0]
+			for _, x := range own {
+				if x.Property != "HARNESS" {
+					v = x
+					break
+				}
+			}
 			k := v.Property + "/" + v.Key
 			if !seenKeys[k] {
 				seenKeys[k] = true
-				rf := minimise(t, prop, tier, seed, params, rc, v)
+				var rf ReplayFile
+				if v.Property == "HARNESS" {
+					rf = ReplayFile{Property: v.Property, Tier: tier, Seed: seed, Params: params, Violation: v, Trace: rc.Trace}
+				} else {
+					rf = minimise(t, prop, tier, seed, params, rc, v)
+				}
 				from := seedBase
 				rf.HistoryFrom = &from
 				out.Violations = append(out.Violations, rf)
 			}
-			if len(out.Violations) >= maxViol {
+			// A harness problem makes the run inconclusive; the search goes on, because a violation of the property
+			// found later is what gets reported.
+			real := 0
+			for _, x := range out.Violations {
+				if x.Violation.Property != "HARNESS" {
+					real++
+				}
+			}
+			if real >= maxViol {
 				break
 			}
 		}
